@@ -28,7 +28,9 @@ def shards(tier, seed):
             {'name': 'symbols', 'kind': 'symbols', 'R': 150 if big else 60, 'n': 5000 if big else 500},
             {'name': 'roots', 'kind': 'roots', 'N': 50000 if big else 5000, 'n': 5000 if big else 500},
             {'name': 'fpp', 'kind': 'fpp', 'N': 1000000 if big else 60000, 'n': 1500 if big else 150},
-            {'name': 'ratrec', 'kind': 'ratrec', 'Y': 120 if big else 60, 'n': 20000 if big else 1500}]
+            {'name': 'ratrec', 'kind': 'ratrec', 'Y': 120 if big else 60, 'n': 20000 if big else 1500}] + \
+           [{'name': f'primes-{o}', 'kind': 'primes_order', 'order': o, 'N': 200000 if big else 70000, 'n': 20000 if big else 4000}
+            for o in ('descending', 'random', 'prev-first', 'jumps')]       # each in a fresh process: answers must not depend on what was asked before
 
 
 def sign(x):
@@ -46,6 +48,41 @@ def run(shard, rec):
     def V(what, fn, case):
         rec.violation(what, {'fn': fn}, {'case': case}, case=case)
 
+    if kind == 'primes_order':
+        N = shard['N']
+        sieve = bytearray([1]) * (N + 200)
+        sieve[0] = sieve[1] = 0
+        for i in range(2, int(len(sieve) ** 0.5) + 1):
+            if sieve[i]:
+                sieve[i * i::i] = bytearray(len(sieve[i * i::i]))
+        order = shard['order']
+        if order == 'descending':
+            xs = list(range(N, max(N - shard['n'], 2), -1)) + list(range(4000, 2, -1))
+        elif order == 'random':
+            xs = [rng.randrange(2, N) for _ in range(shard['n'])]
+        elif order == 'jumps':
+            xs = [b + d for b in (3599, 3481, 5041, 10201, 63001, 65521, 66000, 129599, 11449) for d in (0, 1, 2, -2) if b + d < N] + [rng.randrange(2, N) for _ in range(shard['n'] // 4)]
+        else:
+            xs = [rng.randrange(5, N) for _ in range(shard['n'])]
+        for x in xs:
+            case = ['prime-order', order, x]
+            if not rec.wants(case):
+                continue
+            with rec.guard(f'{order}: prime functions at {x}', case, {'fn': 'prime-exception'}):
+                rec.count('is_prime')
+                if order == 'prev-first':
+                    pp = G.prev_prime(x)
+                    e = max(i for i in range(x - 1, 1, -1) if sieve[i]) if x > 2 else None
+                    if pp != e:
+                        V(f'prev_prime({x}) = {pp} expected {e} (first questions of a fresh process)', 'prev_prime', case)
+                    nn = G.next_prime(x)
+                    e = next(i for i in range(x + 1, len(sieve)) if sieve[i])
+                    if nn != e:
+                        V(f'next_prime({x}) = {nn} expected {e}', 'next_prime', case)
+                elif bool(G.is_prime(x)) != bool(sieve[x]):
+                    V(f'is_prime({x}) = {G.is_prime(x)} when asked in {order} order in a fresh process', 'is_prime', case)
+            rec.case(case, nontrivial=x > 100)
+        return
     if kind == 'primes':
         N = shard['N']
         sieve = bytearray([1]) * (N + 200)
